@@ -37,7 +37,7 @@ def _skeleton(draw, depth=0):
 
 
 @st.composite
-def _stage(draw, skel, stage_idx, counter, tagged_above=False, top=True):
+def _stage(draw, skel, stage_idx, counter, tagged_above=False, top=True, pool=False):
     items = []
     for k, sub in skel:
         if draw(st.integers(0, 3)) == 0:
@@ -55,10 +55,13 @@ def _stage(draw, skel, stage_idx, counter, tagged_above=False, top=True):
         if sub == 'leaf':
             counter[0] += 1
             marker = stage_idx * 1000 + counter[0]
+            if pool:
+                # values from a tiny pool: different stages restate the very same value (the writer still matters for priority and metadata)
+                marker = draw(st.sampled_from([5, 7]))
             kind = draw(st.integers(0, 3))
             if kind == 0:
                 ln = draw(st.integers(0, 3))
-                node = tdoc.sq([tdoc.sc(marker * 10 + j) for j in range(ln)], flow=draw(st.booleans()))
+                node = tdoc.sq([tdoc.sc(marker * 10 + j) for j in range(ln if not pool else 1)], flow=draw(st.booleans()))
             elif kind == 1:
                 node = tdoc.sc(f'm{marker}', q=draw(S.QUOTES))
             else:
@@ -66,7 +69,7 @@ def _stage(draw, skel, stage_idx, counter, tagged_above=False, top=True):
             node.update(fl)
             items.append([k, node])
         else:
-            node = draw(_stage(sub, stage_idx, counter, tagged, False))
+            node = draw(_stage(sub, stage_idx, counter, tagged, False, pool))
             node.update(fl)
             items.append([k, node])
     return tdoc.mp(items, flow=(not top) and draw(st.booleans()))
@@ -76,10 +79,11 @@ def _stage(draw, skel, stage_idx, counter, tagged_above=False, top=True):
 def _case(draw):
     skel = draw(_skeleton())
     n = draw(st.integers(2, 5))
+    pool = draw(st.integers(0, 2)) == 0
     docs = []
     for i in range(n):
         counter = [0]
-        d = draw(_stage(skel, i + 1, counter))
+        d = draw(_stage(skel, i + 1, counter, False, True, pool))
         if draw(st.integers(0, 5)) == 0:
             d['prio'] = draw(st.sampled_from([1, -1]))
             # root tag: remove inner priority tags to keep "one tag per path"
@@ -87,7 +91,7 @@ def _case(draw):
                 if p:
                     nn.pop('prio', None)
         docs.append(d)
-    return {'docs': docs}
+    return {'docs': docs, 'pool': pool}
 
 
 def strategy():
@@ -128,6 +132,8 @@ def run_case(case):
     exp_val, exp_md = {}, {}
     nontrivial = False
     labels = {f'stages={len(docs)}'}
+    if case.get('pool'):
+        labels.add('restated-values')
     for p, ws in leaf_writers.items():
         cur = ws[0]
         md = dict(cur[3])
